@@ -69,7 +69,10 @@ how the rule establishes them (when one cannot be established the verdict is UND
                        setter); vars(self) is wrong only if such attributes exist; table keys enumerated from a literal.
  G3-defaults-after-file  early install: the constructor flag's meaning is read off __init__; an early set_defaults call counts only
                        when unconditional (before / directly in the loop).  Completion overwrites: a write whose value reads the
-                       attribute itself is an unrecognised guard (undecided).
+                       attribute itself is an unrecognised guard (undecided).  Several loops: the SWEEP is the only loop that
+                       calls eval_expr, the others (plain values stored first) stand before it; a set_defaults() call before /
+                       in the sweep is early provided nothing puts an attribute back to None / deletes it and eval_expr does
+                       compare with None (deferral rests on `operand is None`).
  G3-dependency-order   result never examined: every read of it is the value of a store.  Never retried: the container is mentioned
                        nowhere outside the loop and no new code is called.  Operand replaced: the replacement is a literal or
                        read from the defaults table, in an arm that does nothing else.  Never tested: every read is textual.
@@ -1309,6 +1312,81 @@ def _coalesce_copies(w):
     return done
 
 
+def _forward_integer_temporaries(w):
+    """`x = E` - the only definition of the local x, E integer arithmetic (+ - * // %) on plain local names and integer literals -
+    is written out at the uses of x when that is the same computation: every use of x stands in the block of the definition after
+    it, outside lambdas / nested functions / generator expressions, and before any operand of E is stored again; the one
+    statement that stores an operand may still use x when it is a plain assignment (`ti = x`: the value is read before the
+    store).  (`stepsDone = ti + 1 ... ti = stepsDone`, `rest = ti % saveStep`: counters are then read where the rules look.)"""
+    done = []
+    arith = (ast.Add, ast.Sub, ast.Mult, ast.FloorDiv, ast.Mod)
+
+    def pure(e, top=True):
+        if isinstance(e, ast.Name):
+            return not top
+        if isinstance(e, ast.Constant):
+            return not top and isinstance(e.value, int) and not isinstance(e.value, bool)
+        if isinstance(e, ast.BinOp) and isinstance(e.op, arith):
+            return pure(e.left, False) and pure(e.right, False)
+        return False
+    if any(isinstance(n, (ast.Global, ast.Nonlocal)) for n in ast.walk(w)):
+        return done
+    for _ in range(10):
+        stores, hit = {}, None
+        for n in ast.walk(w):
+            if isinstance(n, ast.Name) and isinstance(n.ctx, (ast.Store, ast.Del)):
+                stores.setdefault(n.id, []).append(n)
+        prm = set(_params(w))
+        for owner, f, b in _blocks_of(w):
+            for k, st in enumerate(b):
+                if not (isinstance(st, ast.Assign) and len(st.targets) == 1 and isinstance(st.targets[0], ast.Name) and pure(st.value)):
+                    continue
+                x = st.targets[0].id
+                ops = {n.id for n in ast.walk(st.value) if isinstance(n, ast.Name)}
+                if len(stores.get(x, [])) != 1 or x in prm or x in ops or x in done:
+                    continue
+                uses_all = [n for n in ast.walk(w) if isinstance(n, ast.Name) and n.id == x and n is not st.targets[0]]
+                allowed, blocked = set(), False
+                for later in b[k + 1:]:
+                    restored = any(isinstance(n, ast.Name) and n.id in ops and isinstance(n.ctx, (ast.Store, ast.Del)) for n in ast.walk(later))
+                    here = [n for n in ast.walk(later) if isinstance(n, ast.Name) and n.id == x]
+                    if blocked and here:
+                        allowed = None
+                        break
+                    if restored:
+                        if here and not (isinstance(later, ast.Assign) and len(later.targets) == 1 and isinstance(later.targets[0], ast.Name)):
+                            allowed = None
+                            break
+                        blocked = True
+                    allowed |= {id(n) for n in here}
+                    if any(isinstance(m, (ast.Lambda, ast.FunctionDef, ast.AsyncFunctionDef, ast.GeneratorExp)) and any(
+                            isinstance(n, ast.Name) and n.id == x for n in ast.walk(m)) for m in ast.walk(later)):
+                        allowed = None
+                        break
+                if allowed is None or not uses_all or any(id(n) not in allowed for n in uses_all):
+                    continue
+                hit = (b, k, x, st.value)
+                break
+            if hit:
+                break
+        if hit is None:
+            break
+        b, k, x, value = hit
+        del b[k]
+
+        class _Put(ast.NodeTransformer):
+            def visit_Name(self, n):
+                if n.id == x and isinstance(n.ctx, ast.Load):
+                    return _clone(value)
+                return n
+        for j in range(k, len(b)):
+            b[j] = _Put().visit(b[j])
+        if not b:
+            b.append(ast.Pass())
+        done.append(x)
+    return []
+
+
 def _first_match_loops(stmts, tag):
     """`for T in IT: if C: return E` (nothing else in the loop) -> `found = [E for T in IT if C]; if found: return found[0]`:
     the search loop that returns its first match, in a form without a return inside a loop"""
@@ -1433,7 +1511,7 @@ def _work(fn, chk=None, rel=None, policy="new"):
     if chk is not None and rel is not None:
         steps.append(lambda w_: _compose_calls(chk, rel, w_, policy))
     records = _record_types(chk, rel, w) if chk is not None and rel is not None else {}
-    steps += [fold, lambda w_: _scalar_replace(w_, records), _coalesce_copies, _append_loops_to_comprehensions, _direct_io_to_assignments, _to_single_exit, _continue_to_else,
+    steps += [fold, lambda w_: _scalar_replace(w_, records), _coalesce_copies, _forward_integer_temporaries, _append_loops_to_comprehensions, _direct_io_to_assignments, _to_single_exit, _continue_to_else,
               _merge_common_tails, fold]
     for step in steps:
         # every step rewrites the copy into an equivalent form; a step that meets something it was not written for is skipped
@@ -3469,9 +3547,11 @@ def _flatten_pair_comprehension(c):
     if not all(pure(e) for e in inner.elt.elts):
         return c
     var = inner.generators[0].target.id
-    if var in {t.id for t in g.target.elts}:
-        return c
     m = {t.id: e for t, e in zip(g.target.elts, inner.elt.elts)}
+    if var in m and not (isinstance(m[var], ast.Name) and m[var].id == var):
+        return c                # the outer target of that name hides the inner variable with another value
+    if len(m) != len(g.target.elts):
+        return c
     sub = lambda e: _Sub(m).visit(_clone(e))
     new = c.__class__(elt=sub(c.elt), generators=[ast.comprehension(
         target=ast.Name(id=var, ctx=ast.Store()), iter=inner.generators[0].iter,
@@ -3835,13 +3915,21 @@ def constants_round_trip(chk):
             cobj = nm
     loops = [n for n in _own_walk(gc) if isinstance(n, (ast.While, ast.For)) and not isinstance(parent(n), (ast.While, ast.For))
              and any(isinstance(c, ast.Call) and _fname(c) in ("setattr", "eval_expr") for c in ast.walk(n))]
+    # the loop in which the file's expressions are evaluated (the SWEEP): the only loop, or - when values that need no evaluation
+    # are stored by loops of their own first - the only loop that calls eval_expr, every other loop standing before it.  The
+    # file has been read completely when the sweep has ended
+    sweeps = [l_ for l_ in loops if any(isinstance(c, ast.Call) and _fname(c) == "eval_expr" for c in ast.walk(l_))]
+    lp = None
+    if len(loops) == 1:
+        lp = loops[0]
+    elif len(sweeps) == 1 and all(_pos(l_) < _pos(sweeps[0]) for l_ in loops if l_ is not sweeps[0]):
+        lp = sweeps[0]
     ok = bad = None
-    if cobj is not None and len(loops) == 1:
+    if cobj is not None and lp is not None:
         ctor = [v for v, _ in D.defs[cobj] if v is not None][0]
         a0 = _arg(ctor, 0, "setup")
         dcalls = [n for n in _own_walk(gc) if isinstance(n, ast.Call) and _fname(n) == "set_defaults" and isinstance(n.func, ast.Attribute)
                   and src(n.func.value) == cobj]
-        lp = loops[0]
         inside = {id(x) for x in ast.walk(lp)}
         # a call counts as EARLY (VIOLATED) only when it certainly runs before the file has been read completely: before the
         # loop, or in the loop body, and under no condition at all (a call under a test - `if not pending:` - may be the loop's
@@ -3864,9 +3952,30 @@ def constants_round_trip(chk):
                 a0 = init.args.defaults[0]
             if a0 is None:
                 a0 = ast.Name(id="<unknown>", ctx=ast.Load())
+        # ASSUMPTION of the `early` diagnosis: after set_defaults() no key is unset any more, and eval_expr defers an expression on
+        # `operand is None` only.  Checked: nothing in get_constants stores None into / deletes an attribute of the object, and
+        # eval_expr does compare with None
+        unset_again = any(
+            (isinstance(n_, ast.Call) and _fname(n_) in ("delattr", "__delattr__")) or isinstance(n_, ast.Delete)
+            or (isinstance(n_, ast.Call) and _fname(n_) in ("setattr", "__setattr__") and n_.args and _is_const_none(n_.args[-1]))
+            or (isinstance(n_, ast.Assign) and _is_const_none(n_.value) and any(isinstance(t_, ast.Attribute) for t_ in n_.targets))
+            for n_ in _own_walk(gc))
+        try:
+            ee_ = chk.func(U.CONSTANTS, "eval_expr")
+            defers_on_none = any(isinstance(n_, ast.Compare) and any(_is_const_none(c_) for c_ in n_.comparators) for n_ in ast.walk(ee_))
+        except Exception:
+            defers_on_none = False
         if _is_const(a0, True):
             bad = ("the constants object is created with its defaults installed: an expression in the file that refers to a key given "
                    "later in the file is evaluated with the default instead (result depends on key order)")
+        elif early and (unset_again or (len(loops) > 1 and not defers_on_none)):
+            # AUDIT: the early call is harmless when the keys whose value is still to be evaluated are put back to the unset state
+            # afterwards, or (expressions swept in a loop of their own) when deferral does not rest on `operand is None` at all
+            pass
+        elif early and len(loops) > 1:
+            bad = ("set_defaults() runs before the loop that evaluates the file's expressions: a key whose own value is an expression "
+                   "not yet evaluated then holds its default instead of None, so eval_expr no longer defers an expression that refers "
+                   "to it and evaluates it with the default (result depends on key order)")
         elif early:
             bad = ("defaults are installed before the file has been read completely: an expression that refers to a key given later in the "
                    "file is evaluated with the default instead of being deferred (result depends on key order)")
@@ -3878,8 +3987,10 @@ def constants_round_trip(chk):
 
     # ---- what runs after the file has been read only completes the object: it must not replace a value the file gave
     ok = bad = None
-    if cobj is not None and len(loops) == 1:
-        ok, bad = _completions_fill_only_unset(gc, loops[0], cobj, cls, keys)
+    if cobj is not None and lp is not None:
+        # "after the file has been read" starts where the first value of the file is stored: after the first of the loops,
+        # outside every one of them
+        ok, bad = _completions_fill_only_unset(gc, min(loops, key=_pos), cobj, cls, keys, skip=loops)
     chk.pat("G3-defaults-after-file", gc0, "after the parse loop: attributes are written only where they are still None", ok,
             "every attribute written after the file has been read (defaults, derived constants) is written under the test that it is "
             "still unset, in the method or at its call: a value given in the file survives", bad, **KG)
@@ -3888,7 +3999,8 @@ def constants_round_trip(chk):
     ok = bad = None
     evs = [n for n in _own_walk(gc) if isinstance(n, ast.Assign) and isinstance(n.value, ast.Call) and _fname(n.value) == "eval_expr"
            and isinstance(n.targets[0], ast.Name)]
-    if len(evs) == 1 and len(loops) == 1:
+    if len(evs) == 1 and lp is not None:
+        loops = [lp]
         res = evs[0].targets[0].id
         tests = [n for n in ast.walk(loops[0]) if isinstance(n, ast.If) and (same_expr(n.test, f"{res} is None") or same_expr(n.test, f"{res} is not None"))]
         if not tests:
@@ -4269,10 +4381,11 @@ def _writes_with_guards(fn, obj, stop=None):
     return out
 
 
-def _completions_fill_only_unset(gc, lp, cobj, cls, keys):
+def _completions_fill_only_unset(gc, lp, cobj, cls, keys, skip=()):
     """the statements of get_constants after the parse loop that write attributes of the constants object (directly, or through
     a method of the class) -> (ok, bad)"""
-    after = [n for n in _own_walk(gc) if isinstance(n, ast.stmt) and _pos(n) > _pos(lp) and not any(n is x for x in ast.walk(lp))]
+    inside = {id(x) for l_ in (lp, *skip) for x in ast.walk(l_)}
+    after = [n for n in _own_walk(gc) if isinstance(n, ast.stmt) and _pos(n) > _pos(lp) and id(n) not in inside]
     methods = {m.name: m for m in cls.body if isinstance(m, ast.FunctionDef) and not m.decorator_list}
     found, unknown, wrong = 0, [], []
     seen = set()
